@@ -18,7 +18,11 @@ Monitors
                           from it == x (same guid, coordinates, qualifiers, sequence), for all seven model classes; for the collection
                           also with the parent exported into the model and no parent argument on the way back
   pickle.roundtrip        pickle.loads(pickle.dumps(ac, protocol)) for protocols 2 and HIGHEST: to_dict(export_parent=True), guid, snapshot
-  guid.insertion-order    the same spec built with qualifier dicts / value lists / feature-type lists in another order: all guid columns equal
+  (query-derived)         dict.roundtrip / dict.export-parent / pickle.roundtrip are repeated on ac.query_by_position(s, e, completely_within)
+                          when the library answers the query: a collection on a library-made chunk parent with lifted children
+  guid.insertion-order    the same spec built with qualifier dicts / value lists / feature-type lists in another order: all guid columns equal;
+                          exhaustively: all 24 insertion orders of 4 qualifier keys x value lists forwards / backwards, all 24 orders of
+                          4 feature types, on a transcript, its CDS, a feature, a gene and a variant
   guid.cross-process      child interpreters (sys.executable -B bcv/monitors/c08_child.py, PYTHONHASHSEED swept, orders reshuffled by the
                           child's seed) rebuild the same specs: every guid column (collection, genes, transcripts, cds, feature collections,
                           features, variant collections, variants) equals the parent's
@@ -41,6 +45,9 @@ Latitude
   (v)   nothing is compared between different parents (chunk vs chromosome twin = C07 / K8); every round trip is made on the parent the
         original was built on, or on the parent the dictionary itself exported.
   (vi)  Schema().dump() is applied to models only (the property's wording), not to AnnotationCollection objects.
+
+K8 (computed guid of the container classes digests chunk_relative_location) cannot show up under latitude (v); counters `k8-info:*`
+in the evidence record, without verdict, what an import of a chunk-built collection's dictionary on no parent does to the guids.
 """
 import json
 import os
@@ -66,9 +73,9 @@ RULE = (
     "mode, hostile text, per-gene isoform/coding/strand pattern, feature and variant counts, bounds given); non-trivial = the collection "
     "was constructed and has at least one child or explicit bounds."
 )
-SCOPE = {"quick": {"RT": 90, "SENS": 20, "PERT": 6, "BATCHES": 2, "BATCH": 24, "NSEEDS": 8},
-         "thorough": {"RT": 900, "SENS": 200, "PERT": 12, "BATCHES": 4, "BATCH": 40, "NSEEDS": 64}}
-FLOOR = {"quick": 250, "thorough": 2000}
+SCOPE = {"quick": {"RT": 90, "SENS": 20, "PERT": 6, "BATCHES": 2, "BATCH": 24, "NSEEDS": 8, "PERM": 2},
+         "thorough": {"RT": 900, "SENS": 200, "PERT": 12, "BATCHES": 4, "BATCH": 40, "NSEEDS": 64, "PERM": 10}}
+FLOOR = {"quick": 800, "thorough": 6000}
 REQUIRED_MONITORS = ["qualifiers.normalised", "dict.roundtrip", "dict.guid-recomputed", "dict.export-parent", "model.roundtrip",
                      "pickle.roundtrip", "guid.insertion-order", "guid.cross-process", "xproc.roundtrip", "guid.sensitivity", "guid.locality"]
 _G = "inscripta.biocantor.gene."
@@ -103,12 +110,12 @@ HASHSEEDS = list(dict.fromkeys(HASHSEEDS))[:64]
 
 
 def selftest():
-    """The oracle is an equation; what can be self-tested is the harness' own plumbing against documented behaviour:
-    digest_object's docstring promises that sets are ordered and that kwargs names take part; hashing is md5 over utf-8."""
+    """The oracle is an equation between two observations of the library, so there is no model to replay documented examples
+    against; what is self-tested is the harness' own plumbing: the shuffler must not change content, the structural diff must find
+    the first difference, the perturbation generator must produce the documented single-field changes without touching its input."""
     import hashlib
 
     from bcv.core import HarnessError
-    from inscripta.biocantor.util.hashing import digest_object  # noqa: F401 - imported to be sure the anchored module resolves
 
     try:
         assert uuid.UUID(hashlib.md5("ab".encode("utf-8")).hexdigest()) == uuid.UUID("187ef443-6122-d1cc-2f40-dc2b92f0eba0")
@@ -149,6 +156,12 @@ def cases(spec, ctx):
         c = S.rand_case(rng, shape=rng.choice(["genes", "mixed", "mixed", "mixed-variants", "features"]))
         c.update(kind="sens", pseed=rng.randrange(1 << 30), npert=sc["PERT"])
         yield c
+    # exhaustive small scope: every insertion order of 4 qualifier keys (24) x value lists forwards / backwards, every order of 4 feature types
+    for k in range(sc["PERM"]):
+        yield {"kind": "perm", "quals": {key: vals for key, vals in zip(rng.sample(S.ASCII_KEYS + S.UNI_KEYS, 4),
+                                                                       [[rng.choice(S.LOOKALIKES) for _ in range(rng.randint(2, 4))] for _ in range(4)])},
+               "types": rng.sample(["promoter", "enhancer", "site", "binding", "repeat", "CpG", "TATA_box", "misc", "基因", "naïve"], 4),
+               "strand": rng.choice("+-")}
     seeds = HASHSEEDS[:sc["NSEEDS"]]
     idx = 0
     for b in range(sc["BATCHES"]):
@@ -325,6 +338,8 @@ def run_case(case, ctx):
         return _run_sens(case, ctx)
     if kind == "xproc":
         return _run_xproc(case, ctx)
+    if kind == "perm":
+        return _run_perm(case, ctx)
     from bcv.core import HarnessError
 
     raise HarnessError(f"unknown case kind {kind}")
@@ -511,6 +526,41 @@ def _run_rt(case, ctx):
         d = _diff(s0, snap(ac_s))
         ctx.check("guid.insertion-order", d is None, key=("snapshot", _abstract(d[0]) if d else None), path=d[0] if d else None,
                   want=_short(d[1]) if d else None, got=_short(d[2]) if d else None, **info)
+
+
+def _run_perm(case, ctx):
+    """Every insertion order of the qualifier keys / value lists / feature types of one transcript, feature, gene and variant."""
+    import itertools
+
+    quals, types = case["quals"], case["types"]
+    ctx.note(("perm", tuple(sorted(quals)), tuple(sorted(types))), klass="perm-all-orders")
+    t = {"exons": [[3, 9], [12, 20]], "strand": case["strand"], "cds": [[4, 9], [12, 16]], "frames": [0, 2], "transcript_id": "tx", "transcript_symbol": "sym",
+         "transcript_type": "protein_coding", "protein_id": "p", "product": "prod", "is_primary_tx": None, "guid": None}
+    f = {"blocks": [[2, 5], [8, 11]], "strand": case["strand"], "feature_name": "f", "feature_id": "fid", "guid": None}
+    v = {"start": 4, "end": 5, "sequence": "G", "variant_type": "SNV", "guid": None}
+    ref = None
+    for order in itertools.permutations(list(quals)):
+        for rev in (False, True):
+            q = {k: (list(reversed(quals[k])) if rev else list(quals[k])) for k in order}
+            tx, e1 = ctx.call(S.build_transcript, dict(t, qualifiers=q))
+            ft, e2 = ctx.call(S.build_feature, dict(f, qualifiers=q, feature_types=types))
+            gn, e3 = ctx.call(S.build_gene, {"transcripts": [dict(t, qualifiers=q)], "gene_id": "g", "qualifiers": q, "guid": None})
+            va, e4 = ctx.call(S.build_variant, dict(v, qualifiers=q))
+            if e1 or e2 or e3 or e4:
+                ctx.check("guid.insertion-order", False, key=("perm", "raised"), exc=repr(e1 or e2 or e3 or e4)[:300], order=list(order))
+                return
+            got = [str(tx.guid), str(tx.cds.guid), str(ft.guid), str(gn.guid), str(va.guid), json.dumps(_norm(gn.to_dict()["qualifiers"]), sort_keys=True)]
+            ref = ref or got
+            ctx.check("guid.insertion-order", got == ref, key=("perm", "qualifier-order"), order=list(order), reversed_values=rev, want=ref, got=got)
+    ref = None
+    for order in itertools.permutations(types):
+        ft, exc = ctx.call(S.build_feature, dict(f, qualifiers=quals, feature_types=list(order)))
+        if exc is not None:
+            ctx.check("guid.insertion-order", False, key=("perm", "raised"), exc=repr(exc)[:300], order=list(order))
+            return
+        got = [str(ft.guid), ft.to_dict()["feature_types"]]
+        ref = ref or got
+        ctx.check("guid.insertion-order", got == ref, key=("perm", "feature-type-order"), order=list(order), want=ref, got=got)
 
 
 def _strip_computed(d, coll):
